@@ -466,10 +466,9 @@ func (wf *Workflow[I, O]) AddBranch(fromNodeKey string, branch *GraphBranch) *Wo
 
 // Deprecated: use *Workflow[I,O].End() to obtain a WorkflowNode instance for END, then work with it just like a normal WorkflowNode.
 func (wf *Workflow[I, O]) AddEnd(fromNodeKey string, inputs ...*FieldMapping) *Workflow[I, O] {
-	for _, input := range inputs {
-		input.fromNodeKey = fromNodeKey
-	}
-	_ = wf.g.addEdgeWithMappings(fromNodeKey, END, false, false, inputs...)
+	// declared through the END node like any other input, so that the target paths take part in
+	// the overlap check of END's mappings and static values
+	wf.End().AddInput(fromNodeKey, inputs...)
 	return wf
 }
 
